@@ -23,6 +23,9 @@ pub enum Ev {
     Server(u8),
     /// the transport refuses the next write once, before accepting any byte (kind index: WouldBlock, TimedOut, Other)
     FailNextWrite(u8),
+    /// the transport accepts the first `.1` bytes of the next frame, then refuses once (kind as above): the write either
+    /// fails (the wire then holds that prefix, the sequence ends there) or succeeds with exactly one whole PDU
+    FailInsideNextWrite(u8, usize),
 }
 
 #[derive(Clone, Debug, Serialize)]
@@ -38,7 +41,9 @@ pub struct Case {
     pub caps: u8,
     /// the transport accepts at most this many bytes per write call (0: everything)
     pub write_cap: usize,
-    /// before the events the server deactivates and re-activates the session: 1 with another share id, 2 with the same
+    /// before the events the server deactivates and re-activates the session: 1 with another share id, 2 with the same,
+    /// 3 with another share id while its finalization PDUs still name the previous one; 4: no re-activation, but the
+    /// finalization PDUs of the only activation carry share id 0 (the share id comes from the demand-active alone)
     pub reactivated: u8,
 }
 
@@ -105,7 +110,7 @@ impl Prop for C11 {
             Ev::Key { code: 0xE048, down: true },
             Ev::Bitmap,
         ];
-        let depth = if tier == Tier::Quick { 3 } else { 4 };
+        let depth = if tier == Tier::Quick { 3 } else { 5 };
         fn rec(alpha: &[Ev], depth: usize, cur: &mut Vec<Ev>, out: &mut Vec<Vec<Ev>>) {
             if !cur.is_empty() {
                 out.push(cur.clone());
@@ -124,7 +129,7 @@ impl Prop for C11 {
         for s in &seqs {
             cs.push(Case { events: s.clone(), user_id: uid, share_id: sid, block: "sequences", lenient: false, caps: 0, write_cap: 0, reactivated: 0 });
             for pos in 0..=s.len() {
-                for k in 0..5u8 {
+                for k in 0..7u8 {
                     let mut e = s.clone();
                     e.insert(pos, Ev::Server(k));
                     cs.push(Case { events: e, user_id: uid, share_id: sid, block: "sequences-with-server-traffic", lenient: false, caps: 0, write_cap: 0, reactivated: 0 });
@@ -159,6 +164,19 @@ impl Prop for C11 {
                 }
             }
         }
+        // F2: the transport takes a part of the frame (1, 4, 7, 20, 40 bytes) and then refuses once, on the last event of
+        // every sequence of <= 2 sendable events: Ok means exactly one whole PDU, Err means nothing but that prefix
+        for s in seqs.iter().filter(|s| s.len() <= 2 && !s.contains(&Ev::Bitmap)) {
+            for kind in 0..3u8 {
+                for off in [1usize, 4, 7, 20, 40] {
+                    let mut e = s.clone();
+                    let last = e.pop().unwrap();
+                    e.push(Ev::FailInsideNextWrite(kind, off));
+                    e.push(last);
+                    cs.push(Case { events: e, user_id: uid, share_id: sid, block: "write-refused-inside-the-frame", lenient: false, caps: 0, write_cap: 0, reactivated: 0 });
+                }
+            }
+        }
         for s in seqs.iter().filter(|s| s.len() <= 2) {
             cs.push(Case { events: s.clone(), user_id: uid, share_id: sid, block: "sequences-lenient", lenient: true, caps: 0, write_cap: 0, reactivated: 0 });
             cs.push(Case { events: s.clone(), user_id: uid, share_id: sid, block: "sequences-no-scancode-flag", lenient: false, caps: 2, write_cap: 3, reactivated: 0 });
@@ -166,7 +184,7 @@ impl Prop for C11 {
         // G: the same after the server has deactivated and re-activated the session (fresh or reused share id): the
         // input PDUs name the share of the activation they are sent in
         for s in seqs.iter().filter(|s| s.len() <= 2) {
-            for reactivated in [1u8, 2] {
+            for reactivated in [1u8, 2, 3, 4] {
                 for share_id in [sid, 0, 0xFFFF_FFFF] {
                     cs.push(Case { events: s.clone(), user_id: uid, share_id, block: "after-reactivation", lenient: false, caps: 0, write_cap: 0, reactivated });
                 }
@@ -183,7 +201,7 @@ impl Prop for C11 {
         json!({"idx": idx, "block": c.block, "user_id": c.user_id, "share_id": c.share_id, "n_events": c.events.len(), "events": c.events.iter().take(8).collect::<Vec<_>>()})
     }
     fn rule(&self) -> String {
-        "cases = event sequences submitted through RdpClient::write on a really activated client (raw stack), decoded by the reference peer. [all-x/all-y/all-scancodes] every value 0..65535 of x, y and scancode (batches of 64 events, order checked); [buttons] 4 buttons x 2 press states x 5x5 boundary coordinates; [sequences] every sequence of <=3 (<=4) events over a 9-letter alphabet incl. an unsendable kind, alone and with one server PDU (fast-path bitmap, set-error-info, unknown data PDU, a demand-active or a confirm-active arriving in the active state) interleaved at every position; [refused-write] one write refused by the transport (WouldBlock / TimedOut / Other, before its first byte) at every position of every sequence of <=2 events; [identifiers] server-assigned user ids x share ids; [entry-point-x-capabilities-x-transport] a probe sequence (incl. the unsendable kind through write and try_write, a repeated pointer move) through write / try_write x 5 server capability lists (Windows, minimal, input capability without the scancode flag, no input capability, unknown sets) x a transport accepting 1..48 bytes per write; every sequence of <=2 events through try_write, and with the no-scancode-flag list on a 3-byte transport; [after-reactivation] every sequence of <=2 events after a deactivate-all and a second activation with another / the same share id (3 base share ids): the PDUs name the current share. Non-trivial: >= 2 events or non-default identifiers.".into()
+        "cases = event sequences submitted through RdpClient::write on a really activated client (raw stack), decoded by the reference peer. [all-x/all-y/all-scancodes] every value 0..65535 of x, y and scancode (batches of 64 events, order checked); [buttons] 4 buttons x 2 press states x 5x5 boundary coordinates; [sequences] every sequence of <=3 (<=5 in thorough) events over a 9-letter alphabet incl. an unsendable kind, alone and with one server PDU (fast-path bitmap, set-error-info, unknown data PDU, a demand-active or a confirm-active arriving in the active state, an indication on the user channel or on another static channel) interleaved at every position; [refused-write] one write refused by the transport (WouldBlock / TimedOut / Other, before its first byte) at every position of every sequence of <=2 events; [write-refused-inside-the-frame] the transport takes 1..40 bytes of the frame of the last event and then refuses once: Ok only with exactly one whole PDU on the wire, Err only with that prefix; [identifiers] server-assigned user ids x share ids; [entry-point-x-capabilities-x-transport] a probe sequence (incl. the unsendable kind through write and try_write, a repeated pointer move) through write / try_write x 5 server capability lists (Windows, minimal, input capability without the scancode flag, no input capability, unknown sets) x a transport accepting 1..48 bytes per write; every sequence of <=2 events through try_write, and with the no-scancode-flag list on a 3-byte transport; [after-reactivation] every sequence of <=2 events after a deactivate-all and a second activation with another / the same share id (3 base share ids), also with server finalization PDUs that name the previous share or share 0: the PDUs name the share of the last demand-active. Non-trivial: >= 2 events or non-default identifiers.".into()
     }
     fn assumptions(&self) -> Vec<String> {
         vec![
@@ -194,13 +212,13 @@ impl Prop for C11 {
     fn run_case(&mut self, idx: u64) -> Outcome {
         let c = self.cases[idx as usize].clone();
         let caps = [crate::peer::CapsKind::WindowsCapture, crate::peer::CapsKind::Minimal, crate::peer::CapsKind::InputWithoutScancodes, crate::peer::CapsKind::NoInputCapability, crate::peer::CapsKind::WithUnknown][c.caps as usize % 5].clone();
-        let p = ServerParams { user_id: c.user_id, share_id: c.share_id, caps, reactivations: if c.reactivated > 0 { 1 } else { 0 }, reuse_share_id: c.reactivated == 2, ..Default::default() };
+        let p = ServerParams { user_id: c.user_id, share_id: c.share_id, caps, reactivations: if (1..=3).contains(&c.reactivated) { 1 } else { 0 }, reuse_share_id: c.reactivated == 2, finalization_share_id: match c.reactivated { 3 => Some(1), 4 => Some(0), _ => None }, ..Default::default() };
         let mut conn = match raw_active(&ClientCfg::default(), p) {
             Ok(c) => c,
             Err(e) => return Outcome::fail("setup", "honest-activation-failed", e),
         };
         let mut c = c;
-        if c.reactivated > 0 {
+        if (1..=3).contains(&c.reactivated) {
             // the idle server now sends deactivate-all + demand-active; read them and the finalization
             let cl = conn.client.as_mut().unwrap();
             if let Err(e) = cl.read(|_| {}) {
@@ -209,7 +227,7 @@ impl Prop for C11 {
             if let Err(e) = crate::fixture::drive_activation(cl, 16) {
                 return Outcome::fail("setup", "honest-activation-failed", format!("re-activation: {}", e));
             }
-            if c.reactivated == 1 {
+            if c.reactivated == 1 || c.reactivated == 3 {
                 c.share_id = crate::peer::share_id_of_activation(c.share_id, 1);
             }
         }
@@ -281,8 +299,18 @@ impl Prop for C11 {
                     sh.write_plan = crate::memlink::WritePlan::ErrOnceAt { pos, kind: [std::io::ErrorKind::WouldBlock, std::io::ErrorKind::TimedOut, std::io::ErrorKind::Other][*kind as usize % 3] };
                     fail_pending = true;
                 }
+                Ev::FailInsideNextWrite(kind, off) => {
+                    let mut sh = conn.sh.borrow_mut();
+                    let pos = sh.from_client.len() + off;
+                    sh.write_seq_pos = 0;
+                    sh.write_plan = crate::memlink::WritePlan::ErrOnceAt { pos, kind: [std::io::ErrorKind::WouldBlock, std::io::ErrorKind::TimedOut, std::io::ErrorKind::Other][*kind as usize % 3] };
+                    fail_pending = true;
+                }
                 Ev::Server(k) => {
                     let f = match k {
+                        // indications on other channels than the global one: the user channel, another static channel
+                        5 => framing::tpkt(&framing::x224_dt(&mcs::send_data_indication(1002, c.user_id, &share::set_error_info(c.share_id, 1002, 0)))),
+                        6 => framing::tpkt(&framing::x224_dt(&mcs::send_data_indication(1002, 1004, &[1, 2, 3, 4]))),
                         0 => framing::fastpath(0, &fastpath::updates_payload(&[Update::Bitmap(vec![Rect { left: 0, top: 0, right: 1, bottom: 0, width: 2, height: 1, bpp: 16, flags: 0, data: vec![1, 2, 3, 4] }])]), false),
                         1 => sdi(&share::set_error_info(c.share_id, 1002, 5)),
                         2 => sdi(&share::save_session_info(c.share_id, 1002)),
@@ -296,7 +324,10 @@ impl Prop for C11 {
                     };
                     conn.sh.borrow_mut().push_to_client(&f);
                     if let Err(err) = client.read(|_| {}) {
-                        return Outcome::fail("mismatch", "server-traffic-rejected", format!("{:?}", err));
+                        // traffic on a channel the client does not serve may be reported as an error; the session goes on
+                        if *k < 5 {
+                            return Outcome::fail("mismatch", "server-traffic-rejected", format!("{:?}", err));
+                        }
                     }
                     if conn.sh.borrow().from_client.len() != before {
                         return Outcome::fail("mismatch", "client-wrote-on-server-traffic", "bytes written while processing a server PDU in the Data state".to_string());
